@@ -72,6 +72,9 @@ func lifeSame(op Op, got, want Res) (bool, string) {
 		return true, ""
 	}
 	a, b := normDiff(op, got), normDiff(op, wantForDiff(op, want))
+	if op.Kind == "SetExpiration" && want.Err == "" {
+		a = exactErr(got) // the key exists: re-timing it must succeed
+	}
 	if a == b {
 		return true, ""
 	}
@@ -126,6 +129,8 @@ func runLife(ops []Op) lifeOut {
 				actsAlive, _ = lifeSame(op, got, wl)
 			}
 			switch {
+			case op.Kind == "SetExpiration" && live && got.Err != "":
+				out.key = fmt.Sprintf("C13/redis-lifetime/%s/refused-on-existing-key/on=%s", opTag(op), coarse(class, got, want))
 			case expired && (actsAlive || (op.Kind == "GetExpiration" && got.Err == "")):
 				out.key = "C13/redis-lifetime/outlives-its-ttl/lifetime-from=" + w
 			case live && actsAbsent:
@@ -249,6 +254,9 @@ func TestRedisLifetimes(t *testing.T) {
 				op.Kind = rapid.SampledFrom([]string{"SetList", "SetList", "SetExpiration", "Delete"}).Draw(t, "op")
 				if op.Kind == "SetList" {
 					m := rapid.IntRange(1, 3).Draw(t, "n")
+					if l, ok := cur(k).V.([]any); ok && len(l) > 0 && rapid.IntRange(0, 3).Draw(t, "replaceByEmpty") == 0 {
+						m = 0 // replaced by nothing: read, then delete (Redis has no empty list; see check.json)
+					}
 					for j := 0; j < m; j++ {
 						op.Vals = append(op.Vals, *genDiffStr(t, "elem"))
 					}
@@ -275,6 +283,14 @@ func TestRedisLifetimes(t *testing.T) {
 				op.TTL = ""
 			}
 			emit(op)
+			if op.Kind == "SetList" && len(op.Vals) == 0 {
+				emit(Op{Kind: "GetList", Key: k})
+				emit(Op{Kind: "Delete", Key: k})
+				continue
+			}
+			if op.Kind == "SetExpiration" && ttlDur(op.TTL) <= 0 && rapid.Bool().Draw(t, "again") {
+				emit(op)
+			}
 			reads := []string{"Get", "Exists", "GetExpiration"}
 			if k == "l1" {
 				reads = []string{"GetList", "Exists", "GetExpiration"}
